@@ -429,7 +429,7 @@ class Src:
 
 
 BLANKS = [" ", " ", " ", "\t", "\xa0", "　", "\x0b", "\x0c", " "]
-ADVERSARIAL = ["\ufdd0\ufdd0", "\ufdd0\ufdd1", "\x00\x00", "\ue000\ue001", "\u202bRTL\u202c", "\uff20tag", "\uff03 c", "\uff5c a \uff5c", "Feature\uff1a f", "\uff02\uff02\uff02", "\u201c\u201c\u201c", "caf\u00e9", "cafe\u0301", "\u212a", "\u0130", "\u00df", "\u0660\u0661", '\\"\\"\\"', "\\`\\`\\`", "#12", "{", "}", "{int}", "{0}", "{}", "%s", "%(x)s", "%", "${x}", "\\x41", "\\u00e9", "&lt;", "'", "''", "\"", "x", "a", "word", " ", "Examples", "Background", "Rule", "Scenario Outline", "Feature", "Scenario", "Given x", "When ", "* y", "| a | b |", '"""', "```", "Examples:", "Scenario: s", "Feature: f", "Rule: r",
+ADVERSARIAL = ["$HOME", "${PATH}", "$USER and $_", "~/notes", "~root", "%HOME%", "\ufdd0\ufdd0", "\ufdd0\ufdd1", "\x00\x00", "\ue000\ue001", "\u202bRTL\u202c", "\uff20tag", "\uff03 c", "\uff5c a \uff5c", "Feature\uff1a f", "\uff02\uff02\uff02", "\u201c\u201c\u201c", "caf\u00e9", "cafe\u0301", "\u212a", "\u0130", "\u00df", "\u0660\u0661", '\\"\\"\\"', "\\`\\`\\`", "#12", "{", "}", "{int}", "{0}", "{}", "%s", "%(x)s", "%", "${x}", "\\x41", "\\u00e9", "&lt;", "'", "''", "\"", "x", "a", "word", " ", "Examples", "Background", "Rule", "Scenario Outline", "Feature", "Scenario", "Given x", "When ", "* y", "| a | b |", '"""', "```", "Examples:", "Scenario: s", "Feature: f", "Rule: r",
                "Background:", "@tag", "# c", "#language: fr", "<a>", "<b>", "\\", "\\n", "\\|", "a.b", "a(b", "$1", "\\1", "[", "*", "+", "?",
                "\x85", " ", " ", "\x1c", "\x1d", "\x1e", "é", "\U0001F600", "日本", ":", "  ", "\t", "b",
                "\ufeff", "\u200b", "\u2060", "\u180e", "\ufeffx", "long tail of ordinary prose without any special character in it at all"]
